@@ -347,3 +347,31 @@ def u_batches(ip):
     sub = ip.uf("getslice", perm, ip.to_U(("slice", 0, nfull * bs, None)))
     c.oblige("first_full_batches_of_one_permutation", ip.to_U(r) == ip.uf("array_split", sub, nfull), structural=True)
     c.oblige("key_consumed_once", c.ghost.get("keys_used") is not None and len(c.ghost["keys_used"]) == 1 and not c.ghost.get("key_reuse"))
+
+
+@unit("C20.each_call_starts_from_the_documented_default_stopper", "C20", [f"{OPT}::optim_flat", f"{OPT}::Stopper.__init__"],
+      assumptions=["slice: the statements of optim_flat from the first one that mentions `stopper` to the assignment of n_train, in the environment the REAL signature binds "
+                   "for a call (argument defaults included: one object per definition, S-PY)", "history: a call without a validation model that is aborted right after this "
+                   "pre-processing (the documented ValueErrors for a model whose log-probability does not decompose are raised there), then a call WITH a validation model; "
+                   "both omit `stopper`"])
+def u_default_stopper_per_call(ip):
+    """a call that omits the stopper runs with the documented default (max_iter 10 000, patience 10) - whatever an earlier call of the same process did
+    (optim_flat widens the patience of the stopper object it is handed while it runs without a validation model): `patience` iterations of history decide."""
+    c = ip.ctx
+    key = f"{OPT}::optim_flat"
+    clo = ip.repo(key)
+    ip.models["optax.adam"] = lambda ip_, *a, **kw: PyObj("adam")
+    ip.summaries[f"{OPT}::_find_sample_size"] = lambda ip_, args, kwargs: ip_.ctx.fresh("n_obs", Int)
+    mentions = lambda st: any(isinstance(n, ast.Name) and n.id == "stopper" for n in ast.walk(st))  # noqa: E731
+    mt, mv = PyObj("model_train"), PyObj("model_validation")
+    seen = []
+    for call, kw in (("aborted_call_without_validation", {}), ("next_call_with_validation", {"model_validation": mv})):
+        env0 = ip.bind(clo, [mt, ["p"]], dict(kw))
+        env, lines, sig = exec_slice(ip, key, dict(env0.vars), mentions, assigns("n_train"))
+        st = env.vars["stopper"]
+        seen.append(st)
+        if call.startswith("next"):
+            c.oblige("second_call.patience_is_the_documented_default", ip.getattr(st, "patience") == 10 and ip.getattr(st, "max_iter") == 10000)
+            c.oblige("second_call.user_patience_is_the_documented_default", env.vars.get("user_patience") == 10)
+        else:
+            c.oblige("first_call.runs_to_the_iteration_limit_without_validation", ip.getattr(st, "patience") == 10000 and env.vars.get("user_patience") == 10)
